@@ -139,8 +139,6 @@ func (b *BinaryExpression) SQL() string {
 	if b == nil {
 		return ""
 	}
-	left := exprSQL(b.Left)
-	right := exprSQL(b.Right)
 	op := b.Operator
 	if b.CustomOp != nil {
 		op = b.CustomOp.String()
@@ -148,15 +146,32 @@ func (b *BinaryExpression) SQL() string {
 
 	upperOp := strings.ToUpper(op)
 
+	// NOT EXISTS (...) is represented as {Left: Exists, Operator: "NOT", Not: true}
+	if upperOp == "NOT" && b.Right == nil {
+		return "NOT " + operandSQL(b.Left, precNot)
+	}
+
+	prec := binaryOperatorPrecedence(upperOp)
+	leftMin, rightMin := prec, prec+1
+	if prec == precComparison {
+		// comparison-level operators do not associate
+		leftMin = prec + 1
+	}
+	left := operandSQL(b.Left, leftMin)
+	right := operandSQL(b.Right, rightMin)
+
 	// Handle IS NULL / IS NOT NULL (right side is NULL literal)
 	if upperOp == "IS NULL" || upperOp == "IS NOT NULL" {
+		if b.Not && upperOp == "IS NULL" {
+			upperOp = "IS NOT NULL"
+		}
 		return fmt.Sprintf("%s %s", left, upperOp)
 	}
 
 	// Handle special operators like LIKE, ILIKE, SIMILAR TO
 	if b.Not {
 		switch upperOp {
-		case "LIKE", "ILIKE", "SIMILAR TO":
+		case "LIKE", "ILIKE", "SIMILAR TO", "REGEXP", "RLIKE":
 			return fmt.Sprintf("%s NOT %s %s", left, upperOp, right)
 		default:
 			return fmt.Sprintf("NOT (%s %s %s)", left, op, right)
@@ -166,23 +181,108 @@ func (b *BinaryExpression) SQL() string {
 	return fmt.Sprintf("%s %s %s", left, op, right)
 }
 
+// Binding strength of expression forms, lowest first. Used to decide where
+// parentheses are required so that serialised SQL re-parses to the same tree.
+const (
+	precOr = iota + 1
+	precAnd
+	precNot
+	precComparison
+	precConcat
+	precAdditive
+	precMultiplicative
+	precOtherOperator
+	precUnarySign
+	precPrimary
+)
+
+func binaryOperatorPrecedence(upperOp string) int {
+	switch upperOp {
+	case "OR":
+		return precOr
+	case "AND":
+		return precAnd
+	case "=", "<>", "!=", "<", ">", "<=", ">=", "IS NULL", "IS NOT NULL",
+		"LIKE", "ILIKE", "SIMILAR TO", "REGEXP", "RLIKE", "~", "~*", "!~", "!~*":
+		return precComparison
+	case "||":
+		return precConcat
+	case "+", "-":
+		return precAdditive
+	case "*", "/", "%":
+		return precMultiplicative
+	}
+	return precOtherOperator
+}
+
+// exprPrecedence returns the binding strength of the outermost construct of e.
+func exprPrecedence(e Expression) int {
+	switch v := e.(type) {
+	case *BinaryExpression:
+		if v == nil {
+			return precPrimary
+		}
+		upperOp := strings.ToUpper(v.Operator)
+		if upperOp == "NOT" && v.Right == nil {
+			return precNot
+		}
+		if v.Not && binaryOperatorPrecedence(upperOp) != precComparison {
+			return precNot // printed as NOT (...)
+		}
+		if v.CustomOp != nil {
+			return precOtherOperator
+		}
+		return binaryOperatorPrecedence(upperOp)
+	case *UnaryExpression:
+		if v == nil {
+			return precPrimary
+		}
+		switch v.Operator {
+		case Not:
+			return precNot
+		default:
+			return precUnarySign
+		}
+	case *BetweenExpression, *InExpression, *AnyExpression, *AllExpression:
+		return precComparison
+	}
+	return precPrimary
+}
+
+// operandSQL serialises e as an operand that must bind at least as tightly as min.
+func operandSQL(e Expression, min int) string {
+	s := exprSQL(e)
+	if e != nil && exprPrecedence(e) < min {
+		return "(" + s + ")"
+	}
+	return s
+}
+
 func (u *UnaryExpression) SQL() string {
 	if u == nil {
 		return ""
 	}
-	inner := exprSQL(u.Expr)
 	switch u.Operator {
 	case Not:
-		return "NOT " + inner
+		return "NOT " + operandSQL(u.Expr, precNot)
 	case PGPostfixFactorial:
-		return inner + "!"
+		return operandSQL(u.Expr, precPrimary) + "!"
 	case Plus:
-		return "+" + inner
+		return "+" + signedOperandSQL(u.Expr)
 	case Minus:
-		return "-" + inner
+		return "-" + signedOperandSQL(u.Expr)
 	default:
-		return u.Operator.String() + inner
+		return u.Operator.String() + operandSQL(u.Expr, precUnarySign)
 	}
+}
+
+// signedOperandSQL serialises the operand of a unary sign; a directly nested
+// sign is parenthesised so that "- -a" is never printed as the comment "--a".
+func signedOperandSQL(e Expression) string {
+	if inner, ok := e.(*UnaryExpression); ok && inner != nil && (inner.Operator == Minus || inner.Operator == Plus) {
+		return "(" + exprSQL(e) + ")"
+	}
+	return operandSQL(e, precUnarySign)
 }
 
 func (a *AliasedExpression) SQL() string {
@@ -239,7 +339,7 @@ func (b *BetweenExpression) SQL() string {
 	if b.Not {
 		not = "NOT "
 	}
-	return fmt.Sprintf("%s %sBETWEEN %s AND %s", exprSQL(b.Expr), not, exprSQL(b.Lower), exprSQL(b.Upper))
+	return fmt.Sprintf("%s %sBETWEEN %s AND %s", operandSQL(b.Expr, precConcat), not, operandSQL(b.Lower, precConcat), operandSQL(b.Upper, precConcat))
 }
 
 func (i *InExpression) SQL() string {
@@ -251,13 +351,13 @@ func (i *InExpression) SQL() string {
 		not = "NOT "
 	}
 	if i.Subquery != nil {
-		return fmt.Sprintf("%s %sIN (%s)", exprSQL(i.Expr), not, stmtSQL(i.Subquery))
+		return fmt.Sprintf("%s %sIN (%s)", operandSQL(i.Expr, precConcat), not, stmtSQL(i.Subquery))
 	}
 	vals := make([]string, len(i.List))
 	for idx, v := range i.List {
 		vals[idx] = exprSQL(v)
 	}
-	return fmt.Sprintf("%s %sIN (%s)", exprSQL(i.Expr), not, strings.Join(vals, ", "))
+	return fmt.Sprintf("%s %sIN (%s)", operandSQL(i.Expr, precConcat), not, strings.Join(vals, ", "))
 }
 
 func (e *ExistsExpression) SQL() string {
@@ -278,14 +378,14 @@ func (a *AnyExpression) SQL() string {
 	if a == nil {
 		return ""
 	}
-	return fmt.Sprintf("%s %s ANY (%s)", exprSQL(a.Expr), a.Operator, stmtSQL(a.Subquery))
+	return fmt.Sprintf("%s %s ANY (%s)", operandSQL(a.Expr, precConcat), a.Operator, stmtSQL(a.Subquery))
 }
 
 func (a *AllExpression) SQL() string {
 	if a == nil {
 		return ""
 	}
-	return fmt.Sprintf("%s %s ALL (%s)", exprSQL(a.Expr), a.Operator, stmtSQL(a.Subquery))
+	return fmt.Sprintf("%s %s ALL (%s)", operandSQL(a.Expr, precConcat), a.Operator, stmtSQL(a.Subquery))
 }
 
 func (f *FunctionCall) SQL() string {
@@ -398,7 +498,7 @@ func (a *ArraySubscriptExpression) SQL() string {
 	if a == nil {
 		return ""
 	}
-	s := exprSQL(a.Array)
+	s := operandSQL(a.Array, precPrimary)
 	for _, idx := range a.Indices {
 		s += "[" + exprSQL(idx) + "]"
 	}
@@ -417,7 +517,7 @@ func (a *ArraySliceExpression) SQL() string {
 	if a.End != nil {
 		end = exprSQL(a.End)
 	}
-	return fmt.Sprintf("%s[%s:%s]", exprSQL(a.Array), start, end)
+	return fmt.Sprintf("%s[%s:%s]", operandSQL(a.Array, precPrimary), start, end)
 }
 
 // GROUP BY advanced expressions
